@@ -16,11 +16,18 @@
 (*   R:  Lock; BlockHeaders.ChainTip; RegFilterHeaders.ChainTip;           *)
 (*       while tip > h: BlockHeaders.FetchHeader(tip);                     *)
 (*          [tip <= regHeight: RegFilterHeaders.RollbackLastBlock(prev)];  *)
-(*          BlockHeaders.RollbackLastBlock; BlockHeaders.FetchHeader(prev) *)
+(*          BlockHeaders.RollbackLastBlock; BlockHeaders.FetchHeader(prev);*)
+(*          send Disconnected(block) on blockNtfnChan                      *)
 (*       Unlock                                                            *)
 (*   W:  Lock; store.ChainTip (prev-header check);                         *)
 (*       BlockHeaders.FetchHeaderAncestors(stop); store.WriteHeaders;      *)
+(*       send Connected(block) on blockNtfnChan for every block written;   *)
 (*       Unlock                                                            *)
+(*                                                                         *)
+(* blockNtfnChan is unbuffered: a sender parks (pc "send") in the queue sq *)
+(* of blocked senders until the receiver takes its event (action Recv,     *)
+(* first come first served as in the Go runtime); ev is the sequence of    *)
+(* events delivered so far (Connected(b) = b+1, Disconnected(b) = -(b+1)). *)
 (*                                                                         *)
 (* Mutex = TRUE is the code as it is (filterHeaderStoreMtx held by both    *)
 (* functions from their first statement, b56652a): every interleaving      *)
@@ -38,6 +45,9 @@
 EXTENDS Integers, Sequences, FiniteSets, TLC, Json, CFSyncProps
 
 CONSTANTS Mutex,     \* filterHeaderStoreMtx taken by both functions
+          MaxCS,     \* >= 99: every interleaving; otherwise at most MaxCS switches between R and W that
+                     \* are not forced (used to enumerate ALL schedules of the variant without the
+                     \* mutex with few context switches, instead of a cover of its transitions)
           RScen      \* set of scenarios [bt, ft, e, h]: block tip, filter tip,
                      \* last height of the cfheaders message, rollback target
 
@@ -47,10 +57,14 @@ VARIABLES sc,
           ftk,       \* filter tip key (block id)
           mu,        \* "" | "R" | "W"   holder of the mutex
           rp, wp,    \* pcs
-          rv,        \* R's locals [th, tb, reg]
+          rv,        \* R's locals [th, tb, reg, cur]
+          wi,        \* W: height of the Connected event being sent
+          sq,        \* goroutines blocked sending on blockNtfnChan: <<proc, event>>
+          ev,        \* events delivered to the receiver
+          cur, ncs,  \* last process stepped, number of switches (only if MaxCS < 99)
           abs, act, viol
 
-vars == <<sc, bs, ff, ftk, mu, rp, wp, rv, abs, act, viol>>
+vars == <<sc, bs, ff, ftk, mu, rp, wp, rv, wi, sq, ev, cur, ncs, abs, act, viol>>
 
 InIdx(b)  == \E i \in 1..Len(bs) : bs[i] = b
 HeightOf(b) == (CHOOSE i \in 1..Len(bs) : bs[i] = b) - 1
@@ -60,10 +74,14 @@ FTipOK == InIdx(ftk) /\ HeightOf(ftk) + 1 <= Len(ff)
 
 FObs == IF FTipOK /\ HeightOf(ftk) + 1 = Len(ff) THEN ff ELSE ff \o <<G>>
 
-Obs == [B |-> bs, F |-> FObs, ban |-> <<>>, mem |-> <<0, 0, 0, 0>>,
-        asg |-> <<>>, hard |-> 0, cpi |-> 2, rsc |-> <<sc.bt, sc.ft, sc.e, sc.h>>]
+Finished(p) == p \in {"ok", "err"}
 
-Act(op, res) == [op |-> op, res |-> res, rs |-> <<>>, p |-> 0, j |-> 0, n |-> 0, lo |-> 0, hi |-> 0]
+Obs == [B |-> bs, F |-> FObs, ban |-> <<>>, mem |-> <<0, 0, 0, 0>>,
+        asg |-> <<>>, hard |-> 0, cpi |-> 2, rsc |-> <<sc.bt, sc.ft, sc.e, sc.h>>,
+        ev |-> ev, q |-> IF Finished(rp) /\ Finished(wp) THEN 1 ELSE 0]
+
+ActN(op, res, n) == [op |-> op, res |-> res, rs |-> <<>>, p |-> 0, j |-> 0, n |-> n, lo |-> 0, hi |-> 0]
+Act(op, res) == ActN(op, res, 0)
 
 Fin(a) ==
   /\ act'  = a
@@ -86,24 +104,31 @@ WDone(res) ==
   /\ IF Mutex /\ rp = "blk" THEN mu' = "R" /\ rp' = RFirst
      ELSE mu' = (IF Mutex THEN "" ELSE mu) /\ rp' = rp
 
-Finished(p) == p \in {"ok", "err"}
+CanStep(p) == LET s == IF p = "R" THEN rp ELSE wp IN ~Finished(s) /\ s \notin {"blk", "send"}
+Other(p) == IF p = "R" THEN "W" ELSE "R"
+\* a switch away from a process that could go on is a (counted) context switch
+SwOK(p) == MaxCS >= 99 \/ cur = "" \/ cur = p \/ ~CanStep(cur) \/ ncs < MaxCS
+SwUpd(p) == IF MaxCS >= 99 THEN cur' = cur /\ ncs' = ncs
+            ELSE /\ cur' = p
+                 /\ ncs' = IF cur # "" /\ cur # p /\ CanStep(cur) THEN ncs + 1 ELSE ncs
 
 ----------------------------------------------------------------------------
 StepR ==
-  /\ ~Finished(rp) /\ rp # "blk"
-  /\ sc' = sc
+  /\ ~Finished(rp) /\ rp \notin {"blk", "send"}
+  /\ SwOK("R") /\ SwUpd("R")
+  /\ sc' = sc /\ wi' = wi /\ ev' = ev
   /\ CASE rp = "init" ->
-            /\ UNCHANGED <<bs, ff, ftk, rv, wp>>
+            /\ UNCHANGED <<bs, ff, ftk, rv, wp, sq>>
             /\ IF Mutex /\ mu # "" THEN rp' = "blk" /\ mu' = mu
                ELSE rp' = RFirst /\ mu' = (IF Mutex THEN "R" ELSE mu)
             /\ Fin(Act("StepR", rp'))
        [] rp = "g_btip" ->
             /\ rv' = [rv EXCEPT !.th = Len(bs) - 1, !.tb = bs[Len(bs)]]
             /\ rp' = "g_ftip"
-            /\ UNCHANGED <<bs, ff, ftk, mu, wp>>
+            /\ UNCHANGED <<bs, ff, ftk, mu, wp, sq>>
             /\ Fin(Act("StepR", "g_ftip"))
        [] rp = "g_ftip" ->
-            /\ UNCHANGED <<bs, ff, ftk>>
+            /\ UNCHANGED <<bs, ff, ftk, sq>>
             /\ IF ~FTipOK
                THEN /\ rv' = rv /\ RDone("err") /\ Fin(Act("StepR", "err"))
                ELSE /\ rv' = [rv EXCEPT !.reg = HeightOf(ftk)]
@@ -111,14 +136,15 @@ StepR ==
                        THEN rp' = "g_fetch" /\ UNCHANGED <<mu, wp>> /\ Fin(Act("StepR", "g_fetch"))
                        ELSE RDone("ok") /\ Fin(Act("StepR", "ok"))
        [] rp = "g_fetch" ->
-            /\ UNCHANGED <<bs, ff, ftk, rv>>
+            /\ UNCHANGED <<bs, ff, ftk, sq>>
             /\ IF ~InIdx(rv.tb)
-               THEN RDone("err") /\ Fin(Act("StepR", "err"))
+               THEN rv' = rv /\ RDone("err") /\ Fin(Act("StepR", "err"))
                ELSE LET nx == IF rv.th <= rv.reg THEN "g_frb" ELSE "g_brb" IN
-                    rp' = nx /\ UNCHANGED <<mu, wp>> /\ Fin(Act("StepR", nx))
+                    /\ rv' = [rv EXCEPT !.cur = rv.tb]
+                    /\ rp' = nx /\ UNCHANGED <<mu, wp>> /\ Fin(Act("StepR", nx))
        [] rp = "g_frb" ->
-            \* filterHeaderStore.RollbackLastBlock(newTip = parent of tb)
-            /\ bs' = bs
+            \* filterHeaderStore.RollbackLastBlock(newTip = parent of the block)
+            /\ bs' = bs /\ sq' = sq
             /\ IF ~InIdx(ftk) \/ HeightOf(ftk) = 0 \/ HeightOf(ftk) > Len(ff)
                THEN /\ UNCHANGED <<ff, ftk, rv>> /\ RDone("err") /\ Fin(Act("StepR", "err"))
                ELSE /\ ff' = SubSeq(ff, 1, Len(ff) - 1)
@@ -127,7 +153,7 @@ StepR ==
                     /\ rp' = "g_brb" /\ UNCHANGED <<mu, wp>>
                     /\ Fin(Act("StepR", "g_brb"))
        [] rp = "g_brb" ->
-            /\ UNCHANGED <<ff, ftk>>
+            /\ UNCHANGED <<ff, ftk, sq>>
             /\ IF Len(bs) <= 1
                THEN /\ UNCHANGED <<bs, rv>> /\ RDone("err") /\ Fin(Act("StepR", "err"))
                ELSE /\ bs' = SubSeq(bs, 1, Len(bs) - 1)
@@ -135,34 +161,60 @@ StepR ==
                     /\ rp' = "g_fetch2" /\ UNCHANGED <<mu, wp>>
                     /\ Fin(Act("StepR", "g_fetch2"))
        [] rp = "g_fetch2" ->
-            /\ UNCHANGED <<bs, ff, ftk, rv>>
-            /\ IF rv.th > sc.h
-               THEN rp' = "g_fetch" /\ UNCHANGED <<mu, wp>> /\ Fin(Act("StepR", "g_fetch"))
-               ELSE RDone("ok") /\ Fin(Act("StepR", "ok"))
+            \* FetchHeader(newTip), then onBlockDisconnected: the send blocks
+            /\ UNCHANGED <<bs, ff, ftk, rv, mu, wp>>
+            /\ rp' = "send" /\ sq' = Append(sq, <<"R", -(rv.cur + 1)>>)
+            /\ Fin(Act("StepR", "send"))
 
 StepW ==
-  /\ ~Finished(wp) /\ wp # "blk"
-  /\ sc' = sc /\ rv' = rv
+  /\ ~Finished(wp) /\ wp \notin {"blk", "send"}
+  /\ SwOK("W") /\ SwUpd("W")
+  /\ sc' = sc /\ rv' = rv /\ ev' = ev
   /\ CASE wp = "init" ->
-            /\ UNCHANGED <<bs, ff, ftk, rp>>
+            /\ UNCHANGED <<bs, ff, ftk, rp, sq, wi>>
             /\ IF Mutex /\ mu # "" THEN wp' = "blk" /\ mu' = mu
                ELSE wp' = WFirst /\ mu' = (IF Mutex THEN "W" ELSE mu)
             /\ Fin(Act("StepW", wp'))
        [] wp = "g_tip" ->
-            /\ UNCHANGED <<bs, ff, ftk>>
+            /\ UNCHANGED <<bs, ff, ftk, sq, wi>>
             /\ IF ~FTipOK \/ ff[HeightOf(ftk) + 1] # sc.ft * LS
                THEN WDone("err") /\ Fin(Act("StepW", "err"))
                ELSE wp' = "g_anc" /\ UNCHANGED <<mu, rp>> /\ Fin(Act("StepW", "g_anc"))
        [] wp = "g_anc" ->
-            /\ UNCHANGED <<bs, ff, ftk>>
+            /\ UNCHANGED <<bs, ff, ftk, sq, wi>>
             /\ IF ~InIdx(sc.e)
                THEN WDone("err") /\ Fin(Act("StepW", "err"))
                ELSE wp' = "g_write" /\ UNCHANGED <<mu, rp>> /\ Fin(Act("StepW", "g_write"))
        [] wp = "g_write" ->
+            \* WriteHeaders, in-memory tip, then onBlockConnected for the first block
             /\ bs' = bs
             /\ ff' = ff \o [x \in 1..(sc.e - sc.ft) |-> (sc.ft + x) * LS]
             /\ ftk' = sc.e
-            /\ WDone("ok") /\ Fin(Act("StepW", "ok"))
+            /\ wi' = sc.ft + 1
+            /\ wp' = "send" /\ sq' = Append(sq, <<"W", sc.ft + 2>>)
+            /\ UNCHANGED <<mu, rp>>
+            /\ Fin(Act("StepW", "send"))
+
+\* The receiver of blockNtfnChan takes the event of the sender that has been
+\* waiting longest; that sender runs on to its next store call / send / end.
+Recv ==
+  /\ sq # <<>>
+  /\ LET p == sq[1][1]
+         x == sq[1][2]
+     IN
+     /\ ev' = Append(ev, x)
+     /\ sc' = sc /\ UNCHANGED <<bs, ff, ftk, rv, cur, ncs>>
+     /\ IF p = "R"
+        THEN /\ sq' = Tail(sq) /\ wi' = wi
+             /\ IF rv.th > sc.h
+                THEN rp' = "g_fetch" /\ UNCHANGED <<mu, wp>> /\ Fin(ActN("Recv", "g_fetch", x))
+                ELSE RDone("ok") /\ Fin(ActN("Recv", "ok", x))
+        ELSE IF wi < sc.e
+             THEN /\ wi' = wi + 1 /\ sq' = Append(Tail(sq), <<"W", wi + 2>>)
+                  /\ UNCHANGED <<mu, rp, wp>>
+                  /\ Fin(ActN("Recv", "send", x))
+             ELSE /\ wi' = wi /\ sq' = Tail(sq)
+                  /\ WDone("ok") /\ Fin(ActN("Recv", "ok", x))
 
 Init ==
   \E s \in RScen :
@@ -171,12 +223,13 @@ Init ==
     /\ ff = [x \in 1..(s.ft + 1) |-> (x - 1) * LS]
     /\ ftk = s.ft
     /\ mu = "" /\ rp = "init" /\ wp = "init"
-    /\ rv = [th |-> 0, tb |-> 0, reg |-> 0]
+    /\ rv = [th |-> 0, tb |-> 0, reg |-> 0, cur |-> 0]
+    /\ wi = 0 /\ sq = <<>> /\ ev = <<>> /\ cur = "" /\ ncs = 0
     /\ abs = AbsInit
     /\ act = Act("Init", "ok")
     /\ viol = {}
 
-Next == StepR \/ StepW
+Next == StepR \/ StepW \/ Recv
 
 Spec == Init /\ [][Next]_vars
 
@@ -185,10 +238,13 @@ TypeOK ==
   /\ Len(bs) >= 1 /\ Len(ff) >= 0
   /\ Mutex => (mu = "R" => ~Finished(rp)) /\ (mu = "W" => ~Finished(wp))
 
-\* With the mutex the two functions are atomic w.r.t. each other: C03 holds in
-\* every state (checked as an invariant when Mutex = TRUE).
+\* With the mutex the two functions are atomic w.r.t. each other: C03 (and the
+\* event-order clause of C19) hold in every state (checked as an invariant
+\* when Mutex = TRUE).
 NoViolation == viol = {}
 
-State == [sc |-> sc, bs |-> bs, ff |-> ff, ftk |-> ftk, mu |-> mu, rp |-> rp, wp |-> wp, rv |-> rv]
-View == <<sc, bs, ff, ftk, mu, rp, wp, rv, abs>>
+AbsJ == [ech |-> abs.ech, nev |-> abs.nev, ebad |-> abs.ebad]
+State == [sc |-> sc, bs |-> bs, ff |-> ff, ftk |-> ftk, mu |-> mu, rp |-> rp, wp |-> wp, rv |-> rv,
+          wi |-> wi, sq |-> sq, ev |-> ev, cur |-> cur, ncs |-> ncs, abs |-> AbsJ]
+View == <<sc, bs, ff, ftk, mu, rp, wp, rv, wi, sq, ev, cur, ncs, abs>>
 =============================================================================
